@@ -896,10 +896,14 @@ func (l *lexer) print(w ast.Word) string {
 }
 
 func (l *lexer) scanToken() int {
+	// the next word is examined too, when the value of an alias which
+	// ends here ends in a <blank>; the values of the aliases substituted
+	// inside it end at the same place
 	var blank bool
-	if len(l.aliases) != 0 {
-		if a := l.aliases[len(l.aliases)-1]; a.value.Len() == 0 {
-			blank = a.blank
+	for i := len(l.aliases) - 1; i >= 0 && l.aliases[i].value.Len() == 0; i-- {
+		if l.aliases[i].blank {
+			blank = true
+			break
 		}
 	}
 Scan:
